@@ -68,6 +68,7 @@ func c14PadClass(n int) string {
 // boundaries, and checks every digest against the reference.
 func c14History(a c14Alg, msg []byte, chunks []int, sumAt map[int]bool, prefix []byte) error {
 	h := a.newH()
+	h2 := a.newH() // a second object fed the same slices, interleaved with the first
 	if h.Size() != a.size || h.BlockSize() != 64 {
 		return fmt.Errorf("%s: Size()=%d BlockSize()=%d, want %d/64", a.name, h.Size(), h.BlockSize(), a.size)
 	}
@@ -78,16 +79,19 @@ func c14History(a c14Alg, msg []byte, chunks []int, sumAt map[int]bool, prefix [
 		if failure != nil {
 			return
 		}
-		cp := append([]byte{}, chunk...)
+		cpIn := newIn(chunk, (step%3)*5) // the written slice may have spare capacity
+		cp := cpIn.s
 		n, err := h.Write(cp)
 		if n != len(chunk) || err != nil {
 			failure = fmt.Errorf("%s: Write(%d bytes) returned (%d, %v)", a.name, len(chunk), n, err)
 			return
 		}
-		if !bytes.Equal(cp, chunk) {
-			failure = fmt.Errorf("%s: Write modified its argument", a.name)
+		h2.Write(cp)
+		if !cpIn.intact() {
+			failure = fmt.Errorf("%s: Write modified its argument or the spare capacity behind it", a.name)
 			return
 		}
+		cpIn.clobber(0x77) // the hash must not keep a reference to the caller's slice
 		pos += len(chunk)
 		if sumAt[step] {
 			// the prefix slice has spare capacity holding stale bytes on odd steps
@@ -113,6 +117,9 @@ func c14History(a c14Alg, msg []byte, chunks []int, sumAt map[int]bool, prefix [
 	}
 	got := h.Sum(nil)
 	want := a.ref(msg)
+	if got2 := h2.Sum(nil); !bytes.Equal(got2, want) {
+		return fmt.Errorf("%s: second hash object fed the same %d bytes (chunks %v) interleaved with the first = %x, reference %x", a.name, len(msg), chunks, got2, want)
+	}
 	if !bytes.Equal(got, want) {
 		return fmt.Errorf("%s: digest of %d bytes written as %v (Sum at steps %v) = %x, reference %x", a.name, len(msg), chunks, keysOf(sumAt), got, want)
 	}
